@@ -111,10 +111,22 @@ def rule_forbid(ctx):
     return r
 
 
+def _valid_name(best):
+    """name of the filtered candidate collection: first argument of the
+    min(...)/sorted(...) that `best` returns"""
+    for n in walk_local(best.node):
+        if isinstance(n, ast.Return) and n.value is not None:
+            v = n.value.value if isinstance(n.value, ast.Subscript) else n.value
+            if isinstance(v, ast.Call) and dotted(v.func) in ("min", "sorted") and v.args and \
+                    isinstance(v.args[0], ast.Name):
+                return v.args[0].id
+    return "valid"
+
+
 def _best_filter(ctx, best):
     """(lambda/def body expr P, filter call) of `valid = filter(P, self.costs.items())`"""
     la = ctx.r.local_assignments(best)
-    vs = la.get("valid", [])
+    vs = la.get(_valid_name(best), [])
     for v in vs:
         if isinstance(v, ast.Call) and dotted(v.func) == "filter" and len(v.args) == 2:
             pred, src = v.args
@@ -175,7 +187,7 @@ def rule_filter(ctx):
             if isinstance(v, ast.Subscript):
                 v = v.value
             if not (isinstance(v, ast.Call) and dotted(v.func) in ("min", "sorted")
-                    and v.args and C.unparse(v.args[0]) == "valid"):
+                    and v.args and C.unparse(v.args[0]) == _valid_name(best)):
                 bad = n
     if bad is None:
         r.ok(k, best.loc, "every return is min/sorted over the filtered candidates")
@@ -203,8 +215,14 @@ def rule_agree(ctx):
     sf = ctx.p.cls(C.SLICER, "SliceFinder")
     tr = sf.methods.get("trial")
     la = ctx.r.local_assignments(tr)
-    sat = la.get("already_satisfied", [])
-    C.require(len(sat) == 1, "already_satisfied in trial not recognised")
+    # the entry flag: the name negated in the search loop's ``while not <flag>``
+    flag = None
+    for n in walk_local(tr.node):
+        if isinstance(n, ast.While) and isinstance(n.test, ast.UnaryOp) and \
+                isinstance(n.test.op, ast.Not) and isinstance(n.test.operand, ast.Name):
+            flag = n.test.operand.id
+    sat = la.get(flag, []) if flag else []
+    C.require(len(sat) == 1, "entry test (`while not <already satisfied>`) of trial not recognised")
     enc_sat = {a: (op, t) for a, op, t, _ in _target_compares(sat[0])}
     enc_loop = {}
     for n in walk_local(tr.node):
